@@ -286,12 +286,21 @@ def tracked_elem_ok(lines, k, skip, m, j):
                    and len(tracked(lines, k, skip, m)[j][1]) > 0 and tracked(lines, k, skip, m)[j][0] not in skip)
 
 
+@lemma(props=["C03"], types=dict(s=SeqOf(Str), i=Int), name="tail-index")
+def tail_index(s, i):
+    """Pure (sequences): element i of the tail is element i + 1."""
+    return implies(0 <= i and i + 1 < len(s), s[1:][i] == s[i + 1])
+
+
 @lemma(props=["C03"], types=dict(lines=SeqOf(Str), k=Int, skip=SeqOf(Int), m=Bool, j=Int), name="tracked-lines-are-original")
 def tracked_lines(lines, k, skip, m, j):
     reveal(tracked, lines, k, skip, m)
     return (len(lines) == 0 or (ih(tracked_lines, lines[1:], k + 1, skip, m, j)
                                 and ih(tracked_lines, lines[1:], k + 1, skip, skip_state(norm(lines[0]), m), j)
-                                and ih(tracked_lines, lines[1:], k + 1, skip, skip_state(norm(lines[0]), m), j - 1))) and \
+                                and ih(tracked_lines, lines[1:], k + 1, skip, skip_state(norm(lines[0]), m), j - 1)
+                                and use(tail_index, lines, tracked(lines[1:], k + 1, skip, m)[j][0] - (k + 1))
+                                and use(tail_index, lines, tracked(lines[1:], k + 1, skip, skip_state(norm(lines[0]), m))[j][0] - (k + 1))
+                                and use(tail_index, lines, tracked(lines[1:], k + 1, skip, skip_state(norm(lines[0]), m))[j - 1][0] - (k + 1)))) and \
         tracked_elem_ok(lines, k, skip, m, j)
 
 
